@@ -432,8 +432,8 @@ Init == /\ \E k \in Kinds, nm \in NamesSet, o \in Orders, sc \in SchemaSet : doc
         /\ n = 0
 
 \* fields around which the deepest level of deviation is concentrated
-CoreG == {"name", "rules", "labels"}
-CoreR == {"record", "alert", "expr", "merge", "labels", "annotations"}
+CoreG == {}
+CoreR == {"record", "alert", "expr"}
 Last == CoreOnly /\ n = MaxDev - 1
 
 Base == Baseline(doc.kind, doc.names, doc.order, doc.schema)
